@@ -2,6 +2,7 @@
 
     python -m mc.core.seeded eval <id> [--checks C01,C05 | --all] [--tier quick]
     python -m mc.core.seeded table            # markdown table of all seeded changes and what caught them
+    python -m mc.core.seeded evalall [--missing]   # regression: every kept change against the quick check of its property
 
 eval: requires a clean /repo, applies the patch there, runs the repository's test suite (the change is only admissible if
 it still passes), the demonstration (must fail with the change), the selected checks (default: the property the change
@@ -83,7 +84,7 @@ def table():
         ev = m.get("evaluation", {})
         caught = [c for c, r in ev.get("checks", {}).items() if r.get("exit") == 1]
         missed = [c for c, r in ev.get("checks", {}).items() if r.get("exit") == 0]
-        rows.append(f"| {d.name} | {m.get('property')} | {m.get('summary', '')[:90]} | {ev.get('tests', {}).get('passed', '?')} | {', '.join(caught) or '-'} | {', '.join(missed) or '-'} |")
+        rows.append(f"| {d.name} | {m.get('property')} | {m.get('summary', '')[:90].replace('|', '/')} | {ev.get('tests', {}).get('passed', '?')} | {', '.join(caught) or '-'} | {', '.join(missed) or '-'} |")
     print("| seeded change | property | what it does | tests passed with it | caught by | run but silent |")
     print("|---|---|---|---|---|---|")
     print("\n".join(rows))
@@ -92,6 +93,21 @@ def table():
 def main(argv):
     if argv[0] == "table":
         return table()
+    if argv[0] == "evalall":
+        # regression over every kept seeded change: each must still be reported by the check of the property it targets
+        bad = []
+        for d in sorted(SEEDED.iterdir()):
+            if not (d / "meta.json").exists():
+                continue
+            meta = json.loads((d / "meta.json").read_text())
+            prop = meta["property"]
+            if "--missing" in argv and "evaluation" in meta:
+                continue
+            r = evaluate(d.name, [prop], "quick")
+            if r["checks"][prop]["exit"] != 1 or r["tests"]["passed"] < 316:
+                bad.append(d.name)
+        print("NOT CAUGHT (or tests broken):", bad)
+        return
     if argv[0] == "eval":
         sid = argv[1]
         tier = "quick"
